@@ -446,9 +446,10 @@ Lemma factors_loop_spec : forall cands n acc l,
 Proof.
   induction cands as [|i more IH]; intros n acc l H; [discriminate|].
   cbn [factors_loop] in H. pose proof (strip_spec n n i) as S.
-  destruct (fst (strip n n i) =? 1) eqn:C.
-  - injection H as <-. apply Nat.eqb_eq in C. rewrite prod_nat_app, prod_nat_repeat. rewrite S at 2. rewrite C. lia.
-  - apply IH in H. rewrite H, prod_nat_app, prod_nat_repeat. rewrite S at 3. lia.
+  destruct (strip n n i) as [n' s]. cbn [fst snd] in *.
+  destruct (n' =? 1) eqn:C.
+  - injection H as <-. apply Nat.eqb_eq in C. subst n'. rewrite prod_nat_app, prod_nat_repeat. lia.
+  - apply IH in H. rewrite H, prod_nat_app, prod_nat_repeat. nia.
 Qed.
 
 Theorem factors_product : forall n l, factors n = Some l -> prod_nat l = n.
@@ -481,38 +482,41 @@ Section SortKeys.
   Qed.
 End SortKeys.
 
+Lemma strided_none : forall k s c x (g : nat -> nat), c < s ->
+  map (fun i => (if c =? i then x else 1) * g i) (seq s k) = map g (seq s k).
+Proof.
+  induction k as [|k IH]; intros s c x g Hc; [reflexivity|].
+  cbn [seq map]. assert (H : c =? s = false) by (apply Nat.eqb_neq; lia). rewrite H, IH by lia. f_equal. lia.
+Qed.
+
+Lemma strided_one_gen : forall k s c x (g : nat -> nat), s <= c < s + k ->
+  prod_nat (map (fun i => (if c =? i then x else 1) * g i) (seq s k)) = x * prod_nat (map g (seq s k)).
+Proof.
+  unfold prod_nat. induction k as [|k IH]; intros s c x g Hc; [lia|].
+  cbn [seq map fold_right]. destruct (Nat.eq_dec c s) as [->|Hne].
+  - rewrite Nat.eqb_refl, strided_none by lia. lia.
+  - assert (H : c =? s = false) by (apply Nat.eqb_neq; lia). rewrite H, IH by lia. lia.
+Qed.
+
 Lemma strided_one : forall dim c x (g : nat -> nat), c < dim ->
   prod_nat (map (fun i => (if c =? i then x else 1) * g i) (seq 0 dim)) = x * prod_nat (map g (seq 0 dim)).
-Proof.
-  intros dim c x g. generalize 0 as s. intros s.
-  (* generalise over the start of the index range *)
-  revert s c. induction dim as [|d IH]; intros s c Hc; [lia|].
-  assert (G : forall s c, s <= c < s + S d ->
-     prod_nat (map (fun i => (if c =? i then x else 1) * g i) (seq s (S d))) = x * prod_nat (map g (seq s (S d)))).
-  { clear s c Hc. revert IH. revert d. induction d as [|d IHd]; intros IH s c Hc.
-    - assert (c = s) by lia. subst. cbn. rewrite Nat.eqb_refl. lia.
-    - cbn [seq map]. unfold prod_nat. cbn [fold_right]. fold (prod_nat (map g (seq (S s) (S d)))).
-      fold (prod_nat (map (fun i => (if c =? i then x else 1) * g i) (seq (S s) (S d)))).
-      destruct (Nat.eq_dec c s) as [->|Hne].
-      + rewrite Nat.eqb_refl.
-        assert (Hrest : forall t k, s < t -> map (fun i => (if s =? i then x else 1) * g i) (seq t k) = map g (seq t k)).
-        { intros t k; revert t; induction k; intros t Ht; cbn; [reflexivity|].
-          assert (s =? t = false) by (apply Nat.eqb_neq; lia). rewrite H. rewrite IHk by lia. f_equal. lia. }
-        rewrite Hrest by lia. lia.
-      + assert (c =? s = false) by (apply Nat.eqb_neq; lia). rewrite H.
-        rewrite IHd; [lia | | lia].
-        intros; apply IH; lia. }
-  apply (G 0 c). lia.
-Qed.
+Proof. intros; apply strided_one_gen; lia. Qed.
 
 Lemma strided_partition : forall l k dim, 0 < dim ->
   prod_nat (map (strided_prod l k dim) (seq 0 dim)) = prod_nat l.
 Proof.
   induction l as [|x l IH]; intros k dim Hd.
-  - cbn [strided_prod]. clear k. induction (seq 0 dim); cbn; auto. unfold prod_nat in *. cbn. lia.
+  - unfold prod_nat. induction (seq 0 dim) as [|a r IHr]; [reflexivity|].
+    cbn [map fold_right]. rewrite IHr. reflexivity.
   - cbn [strided_prod].
     rewrite (strided_one dim (k mod dim) x (strided_prod l (S k) dim)) by (apply Nat.mod_upper_bound; lia).
     rewrite IH by lia. reflexivity.
+Qed.
+
+Lemma map_snd_combine : forall {K V} (ks : list K) (r : list V), length ks = length r -> map snd (combine ks r) = r.
+Proof.
+  intros K V ks; induction ks as [|a ks IH]; intros [|x r] Hl; try discriminate; [reflexivity|].
+  cbn. f_equal. apply IH. cbn in Hl. lia.
 Qed.
 
 Theorem randomly_bin_spec : forall K (kltb : K -> K -> bool) N ndim keys bins,
@@ -527,12 +531,8 @@ Proof.
   apply Nat.ltb_ge in Hk.
   set (res := fs ++ repeat 1 (ndim - length fs / ndim)) in *.
   rewrite (prod_nat_perm _ (map snd (combine (firstn (length res) keys) res))).
-  - assert (Hs : map snd (combine (firstn (length res) keys) res) = res).
-    { assert (Hl : length (firstn (length res) keys) = length res) by (rewrite firstn_length; lia).
-      revert Hl. generalize (firstn (length res) keys). induction res as [|r res IHr]; intros ks Hl.
-      - destruct ks; reflexivity.
-      - destruct ks as [|a ks]; [discriminate|]. cbn. f_equal. apply IHr. cbn in Hl. lia. }
-    rewrite Hs. unfold res. rewrite prod_nat_app, prod_nat_repeat1. apply factors_product in Hf. lia.
+  - rewrite map_snd_combine by (rewrite firstn_length; lia).
+    unfold res. rewrite prod_nat_app, prod_nat_repeat1. apply factors_product in Hf. lia.
   - apply Permutation_map. apply sort_by_keys_perm.
 Qed.
 
@@ -544,4 +544,282 @@ Proof.
   destruct (factors_total_bounded N HN) as (fs & -> & Hlen).
   destruct (length keys <? length (fs ++ repeat 1 (ndim - length fs / ndim))) eqn:C; [|eauto].
   exfalso. apply Nat.ltb_lt in C. rewrite app_length, repeat_length in C. lia.
+Qed.
+
+(* ------------------------------------------------------------------------------------------------ *)
+(** * E. gridpts is the lexicographic Cartesian product *)
+
+Section GridSpec.
+  Variable A : Type.
+
+  Lemma flat_map_length_uniform : forall {B C} (f : B -> list C) m l,
+    (forall a, length (f a) = m) -> length (flat_map f l) = length l * m.
+  Proof. intros B C f m l H; induction l; cbn; [reflexivity|]. rewrite app_length, H, IHl. lia. Qed.
+
+  Theorem gridpts_length : forall q : list (list A), length (gridpts q) = prod_nat (map (@length A) q).
+  Proof.
+    induction q as [|ax q IH]; [reflexivity|]. cbn [gridpts map]. unfold prod_nat in *. cbn [fold_right].
+    rewrite (flat_map_length_uniform _ (length (gridpts q))) by (intros; apply map_length). rewrite IH. reflexivity.
+  Qed.
+
+  Theorem gridpts_In : forall (q : list (list A)) p, In p (gridpts q) <-> Forall2 (@In A) p q.
+  Proof.
+    induction q as [|ax q IH]; intros p; cbn [gridpts].
+    - split; [intros [<-|[]]; constructor | intros H; inversion H; now left].
+    - rewrite in_flat_map. split.
+      + intros (a & Ha & Hp). apply in_map_iff in Hp. destruct Hp as (p' & <- & Hp'). constructor; [exact Ha|]. now apply IH.
+      + intros H. inversion H as [|a ? p' ? Ha Hp']; subst. exists a. split; [exact Ha|]. apply in_map. now apply IH.
+  Qed.
+
+  Lemma nth_flat_map_uniform : forall {B C} (f : B -> list C) m l j r d b0,
+    (forall a, length (f a) = m) -> j < length l -> r < m ->
+    nth (j * m + r) (flat_map f l) d = nth r (f (nth j l b0)) d.
+  Proof.
+    intros B C f m l; induction l as [|a l IH]; intros j r d b0 Hm Hj Hr; [cbn in Hj; lia|].
+    cbn [flat_map]. destruct j as [|j].
+    - cbn [Nat.mul Nat.add nth]. apply app_nth1. rewrite Hm. exact Hr.
+    - rewrite app_nth2 by (rewrite Hm; cbn; lia). rewrite Hm.
+      replace (S j * m + r - m) with (j * m + r) by (cbn; lia). cbn [nth]. apply IH; auto. cbn in Hj. lia.
+  Qed.
+
+  (* order: the point with per-axis indices js sits at the mixed-radix position, the LAST axis varying fastest *)
+  Theorem gridpts_nth : forall (q : list (list A)) js d,
+    Forall2 (fun j ax => j < length ax) js q ->
+    nth (grid_rank js (map (@length A) q)) (gridpts q) [] = grid_point d js q.
+  Proof.
+    induction q as [|ax q IH]; intros js d H; inversion H as [|j ? js' ? Hj Hjs]; subst; [reflexivity|].
+    cbn [map grid_rank gridpts grid_point].
+    fold (prod_nat (map (@length A) q)). rewrite <- gridpts_length.
+    assert (Hr : grid_rank js' (map (@length A) q) < length (gridpts q)).
+    { rewrite gridpts_length. clear IH H Hj. revert js' Hjs. induction q as [|ax' q IHq]; intros js' Hjs;
+        inversion Hjs as [|j' ? js'' ? Hj' Hjs']; subst; cbn [map grid_rank]; [cbn; lia|].
+      specialize (IHq _ Hjs'). unfold prod_nat in *. cbn [fold_right]. nia. }
+    rewrite (nth_flat_map_uniform _ (length (gridpts q)) ax j _ [] d) by (auto; intros; apply map_length).
+    rewrite (nth_indep _ [] (nth j ax d :: [])) by (rewrite map_length; exact Hr).
+    rewrite (map_nth (cons (nth j ax d))). f_equal.
+    apply IH. exact Hjs.
+  Qed.
+
+  Lemma nodup_app : forall {B} (a b : list B), NoDup a -> NoDup b -> (forall x, In x a -> ~ In x b) -> NoDup (a ++ b).
+  Proof.
+    intros B a; induction a as [|x a IH]; intros b Ha Hb Hd; [exact Hb|].
+    cbn. inversion Ha; subst. constructor.
+    - intros Hin. apply in_app_or in Hin. destruct Hin; [contradiction|]. apply (Hd x); [now left | assumption].
+    - apply IH; auto. intros y Hy. apply Hd. now right.
+  Qed.
+
+  Lemma nodup_map_cons : forall (a : A) l, NoDup l -> NoDup (map (cons a) l).
+  Proof.
+    intros a l; induction 1 as [|x l Hx Hl IH]; cbn; constructor; auto.
+    intros Hin. apply in_map_iff in Hin. destruct Hin as (y & Hy & Hin). injection Hy as ->. contradiction.
+  Qed.
+
+  Theorem gridpts_NoDup : forall q : list (list A), Forall (@NoDup A) q -> NoDup (gridpts q).
+  Proof.
+    induction q as [|ax q IH]; intros H; cbn [gridpts]; [repeat constructor; intros []|].
+    inversion H as [|? ? Hax Hq]; subst. specialize (IH Hq).
+    induction Hax as [|a ax Ha Hax IHax]; cbn [flat_map]; [constructor|].
+    apply nodup_app; [now apply nodup_map_cons | apply IHax; constructor; auto; now inversion H |].
+    intros p Hp Hp'. apply in_map_iff in Hp. destruct Hp as (p0 & <- & _).
+    apply in_flat_map in Hp'. destruct Hp' as (b & Hb & Hp'). apply in_map_iff in Hp'.
+    destruct Hp' as (p1 & Heq & _). injection Heq as -> _. contradiction.
+  Qed.
+End GridSpec.
+
+(* the as-written loop returns junk on an empty non-last axis: the witness of the finding *)
+Lemma gridpts_impl_refuted :
+  exists q : list (list nat), In [] q /\ gridpts_impl q <> Some (gridpts q).
+Proof. exists [[]; [1; 2]]. split; [now left|]. vm_compute. discriminate. Qed.
+
+(* ------------------------------------------------------------------------------------------------ *)
+(** * E'. The loop as written in grid.py computes that product whenever no axis is empty *)
+
+Section GridImpl.
+  Variable A : Type.
+
+  Lemma mapi_from_app : forall {B C} (f : nat -> B -> C) a b k,
+    mapi_from f k (a ++ b) = mapi_from f k a ++ mapi_from f (k + length a) b.
+  Proof.
+    intros B C f a; induction a as [|x a IH]; intros b k; cbn [app mapi_from length].
+    - now rewrite Nat.add_0_r.
+    - f_equal. rewrite IH. f_equal. f_equal. lia.
+  Qed.
+
+  Lemma mapi_from_id : forall {B} (f : nat -> B -> B) l k,
+    (forall i x, i < length l -> f (k + i) x = x) -> mapi_from f k l = l.
+  Proof.
+    intros B f l k H. rewrite (mapi_from_ext f (fun x => x)); [apply map_id|].
+    intros i x Hi. apply H. apply nth_error_Some. congruence.
+  Qed.
+
+  Lemma append_range_middle : forall (P Wd R : list (list A)) lo v,
+    length P = lo ->
+    append_range A (P ++ Wd ++ R) lo (lo + length Wd) v = P ++ map (fun wl => wl ++ [v]) Wd ++ R.
+  Proof.
+    intros P Wd R lo v HP. unfold append_range. rewrite !mapi_from_app. cbn [Nat.add]. f_equal; [|f_equal].
+    - apply mapi_from_id. intros i x Hi. cbn [Nat.add].
+      assert (H : lo <=? i = false) by (apply Nat.leb_gt; lia). now rewrite H.
+    - apply mapi_from_ext. intros i x Hi.
+      assert (Hlt : i < length Wd) by (apply nth_error_Some; congruence).
+      assert (H1 : lo <=? length P + i = true) by (apply Nat.leb_le; lia).
+      assert (H2 : length P + i <? lo + length Wd = true) by (apply Nat.ltb_lt; lia).
+      now rewrite H1, H2.
+    - apply mapi_from_id. intros i x Hi.
+      assert (H2 : length P + length Wd + i <? lo + length Wd = false) by (apply Nat.ltb_ge; lia).
+      rewrite H2. now rewrite andb_false_r.
+  Qed.
+
+  Lemma concat_repeat_length : forall (W : list (list A)) n, length (concat (repeat W n)) = n * length W.
+  Proof. intros W n; induction n; cbn; [reflexivity|]. rewrite app_length, IHn. reflexivity. Qed.
+
+  Definition app1 (a : A) (p : list A) : list A := p ++ [a].
+
+  Lemma assign_fold : forall (W : list (list A)) n M rest t P,
+    0 < n -> M = n * length W -> length P = t * length W ->
+    fold_left (fun w' kv => append_range A w' (fst kv * M / n) (S (fst kv) * M / n) (snd kv))
+              (combine (seq t (length rest)) rest) (P ++ concat (repeat W (length rest)))
+    = P ++ flat_map (fun a => map (app1 a) W) rest.
+  Proof.
+    intros W n M rest; induction rest as [|a rest IH]; intros t P Hn HM HP.
+    - reflexivity.
+    - cbn [length seq combine fold_left fst snd repeat concat flat_map].
+      assert (D1 : t * M / n = t * length W).
+      { subst M. replace (t * (n * length W)) with (t * length W * n) by lia. apply Nat.div_mul. lia. }
+      assert (D2 : S t * M / n = t * length W + length W).
+      { subst M. replace (S t * (n * length W)) with ((t * length W + length W) * n) by lia. apply Nat.div_mul. lia. }
+      rewrite D1, D2. rewrite append_range_middle by exact HP.
+      change (map (fun wl => wl ++ [a]) W) with (map (app1 a) W).
+      rewrite app_assoc. rewrite (IH (S t) (P ++ map (app1 a) W)); auto.
+      + now rewrite <- app_assoc.
+      + rewrite app_length, map_length, HP. cbn. lia.
+  Qed.
+
+  Lemma assign_blocks : forall (W : list (list A)) axis,
+    axis <> [] ->
+    assign_axis A (concat (repeat W (length axis))) axis = flat_map (fun a => map (app1 a) W) axis.
+  Proof.
+    intros W axis Hne. unfold assign_axis.
+    rewrite concat_repeat_length.
+    apply (assign_fold W (length axis) (length axis * length W) axis 0 []); auto.
+    destruct axis; [congruence | cbn; lia].
+  Qed.
+
+  Definition G (suffix : list (list A)) : list (list A) := map (@rev A) (gridpts suffix).
+
+  Lemma G_cons : forall axis suffix, flat_map (fun a => map (app1 a) (G suffix)) axis = G (axis :: suffix).
+  Proof.
+    intros axis suffix. unfold G. cbn [gridpts].
+    induction axis as [|a axis IH]; [reflexivity|].
+    cbn [flat_map]. rewrite map_app, IH. f_equal. rewrite !map_map. apply map_ext. intros p. reflexivity.
+  Qed.
+
+  Lemma replicate_pos : forall (w : list (list A)) c, 0 < c -> replicate_w A w c = concat (repeat w c).
+  Proof. intros w [|c] H; [lia|]. unfold replicate_w. cbn. now rewrite Nat.sub_0_r. Qed.
+
+  Lemma loop_inv : forall rq suffix,
+    rq <> [] -> Forall (fun ax : list A => ax <> []) rq ->
+    grid_loop A rq (concat (repeat (G suffix) (length (hd [] rq)))) = G (rev rq ++ suffix).
+  Proof.
+    induction rq as [|axis more IH]; intros suffix Hne Hall; [congruence|].
+    inversion Hall as [|? ? Hax Hmore]; subst.
+    cbn [grid_loop hd]. rewrite assign_blocks by exact Hax. rewrite G_cons.
+    destruct more as [|prev more'].
+    - reflexivity.
+    - rewrite replicate_pos by (inversion Hmore; destruct prev; [congruence | cbn; lia]).
+      change (length prev) with (length (hd [] (prev :: more'))).
+      rewrite IH by (auto; congruence).
+      cbn [rev]. now rewrite <- !app_assoc.
+  Qed.
+
+  Theorem gridpts_impl_correct : forall q : list (list A),
+    q <> [] -> Forall (fun ax => ax <> []) q -> gridpts_impl q = Some (gridpts q).
+  Proof.
+    intros q Hne Hall. unfold gridpts_impl.
+    destruct (rev q) as [|last rq'] eqn:Hr.
+    { exfalso. apply Hne. rewrite <- (rev_involutive q), Hr. reflexivity. }
+    assert (Hinit : repeat (@nil A) (length last) = concat (repeat (G []) (length (hd [] (last :: rq'))))).
+    { cbn [hd]. unfold G. cbn [gridpts map rev]. induction (length last); cbn; [reflexivity|]. now f_equal. }
+    rewrite Hinit, <- Hr.
+    rewrite loop_inv.
+    - rewrite rev_involutive, app_nil_r. unfold G. rewrite map_map. f_equal.
+      rewrite <- (map_id (gridpts q)) at 2. apply map_ext. apply rev_involutive.
+    - rewrite Hr. discriminate.
+    - apply Forall_rev. exact Hall.
+  Qed.
+
+  (* an input without axes is rejected (IndexError) *)
+  Lemma gridpts_impl_no_axes : gridpts_impl (@nil (list A)) = None.
+  Proof. reflexivity. Qed.
+End GridImpl.
+
+(* ------------------------------------------------------------------------------------------------ *)
+(** * Property-level statements (restated in Props/Properties_C09.v) *)
+
+Theorem best_is_min_member : forall (X E Cfg : Type) (ltb leb : E -> E -> bool),
+  StrictWeak E ltb -> (forall x y, leb x y = negb (ltb y x)) ->
+  forall own prev (all : list (option (member X E Cfg))) b upd,
+  update_bestSolver leb own prev all = Some (b, upd) ->
+  (exists m, In m (somes all) /\
+             leb (r_energy (m_res m)) (cur X E Cfg own (start_of X E Cfg prev all)) = true) ->
+  upd = true /\ exists m, b = Some m /\ In m (somes all) /\
+    forall x, In x (somes all) -> leb (r_energy (m_res m)) (r_energy (m_res x)) = true.
+Proof.
+  intros X E Cfg ltb leb SW Hleb own prev all b upd Hu Hex.
+  destruct (update_bestSolver_spec X E Cfg ltb leb SW Hleb own prev all b upd Hu Hex) as (-> & m & -> & Hm).
+  split; [reflexivity|]. exists m. split; [reflexivity|].
+  exact (is_last_min_min X E Cfg ltb leb SW Hleb m (somes all) Hm).
+Qed.
+
+Theorem solution_is_that_members : forall (X E Cfg : Type) (ltb leb : E -> E -> bool),
+  StrictWeak E ltb -> (forall x y, leb x y = negb (ltb y x)) ->
+  forall (e e' : ens X E Cfg),
+  update_state leb e = Some e' ->
+  (exists m, In m (somes (e_all e)) /\
+             leb (r_energy (m_res m)) (cur X E Cfg (e_energy e) (start_of X E Cfg (e_best e) (e_all e))) = true) ->
+  exists m l1 l2,
+    somes (e_all e) = l1 ++ m :: l2 /\
+    Forall (fun x => leb (r_energy (m_res m)) (r_energy (m_res x)) = true) l1 /\
+    Forall (fun x => ltb (r_energy (m_res m)) (r_energy (m_res x)) = true) l2 /\
+    e_best e' = Some m /\ e_energy e' = r_energy (m_res m) /\ e_sol e' = Some (r_sol (m_res m)) /\
+    e_evals e' = r_evals (m_res m) /\ e_all e' = e_all e.
+Proof.
+  intros X E Cfg ltb leb SW Hleb e e' Hs Hex.
+  destruct (update_state_spec X E Cfg ltb leb SW Hleb e e' Hs Hex) as (m & (l1 & l2 & H0 & H1 & H2) & A & B & C & D & F & _).
+  exists m, l1, l2. repeat split; auto.
+Qed.
+
+Lemma forall2_length : forall {A1 A2} (R : A1 -> A2 -> Prop) l1 l2, Forall2 R l1 l2 -> length l1 = length l2.
+Proof. induction 1; cbn; auto. Qed.
+
+Lemma axes_length : forall (N : Num) lo hi ns, length lo = length ns -> length hi = length ns ->
+  map (@length (T N)) (axes N lo hi ns) = ns.
+Proof.
+  intros N lo hi ns; revert lo hi; induction ns as [|n ns IH]; intros [|l lo] [|h hi] H1 H2; try discriminate; [reflexivity|].
+  cbn [axes map]. f_equal; [unfold bin_centres; now rewrite map_length, seq_length | apply IH; cbn in *; lia].
+Qed.
+
+(* member_count, lattice: one start point per cell, prod(nbins) of them *)
+Theorem lattice_count : forall (N : Num) lo hi ns pts, length lo = length ns -> length hi = length ns ->
+  lattice_points N lo hi ns = Some pts -> length pts = prod_nat ns /\ Forall (fun p => length p = length ns) pts.
+Proof.
+  intros N lo hi ns pts H1 H2 H. unfold lattice_points in H.
+  destruct (existsb (Nat.eqb 0) ns); [discriminate|]. destruct ns as [|n ns]; [discriminate|]. injection H as <-.
+  split.
+  - pose proof (gridpts_length (T N) (axes N lo hi (n :: ns))) as GL.
+    rewrite (axes_length N lo hi (n :: ns) H1 H2) in GL. exact GL.
+  - apply Forall_forall. intros p Hp. apply (gridpts_In (T N)) in Hp. apply forall2_length in Hp.
+    pose proof (f_equal (@length nat) (axes_length N lo hi (n :: ns) H1 H2)) as AL. rewrite map_length in AL.
+    exact (eq_trans Hp AL).
+Qed.
+
+Theorem gridpts_is_product : forall (A : Type) (q : list (list A)),
+  length (gridpts q) = prod_nat (map (@length A) q) /\
+  (forall p, In p (gridpts q) <-> Forall2 (@In A) p q) /\
+  (forall js d, Forall2 (fun j ax => j < length ax) js q ->
+       nth (grid_rank js (map (@length A) q)) (gridpts q) [] = grid_point d js q) /\
+  (Forall (@NoDup A) q -> NoDup (gridpts q)) /\
+  (q <> [] -> Forall (fun ax => ax <> []) q -> gridpts_impl q = Some (gridpts q)).
+Proof.
+  intros A q. split; [apply gridpts_length|]. split; [apply gridpts_In|]. split; [apply gridpts_nth|].
+  split; [apply gridpts_NoDup | apply gridpts_impl_correct].
 Qed.
